@@ -121,11 +121,11 @@ def gen_history(rng, tier):
 def harness(ctx):
     R = vlib.REPO
     common = [R + '/librfn/string.c', R + '/librfn/util.c', R + '/librfn/posix/time_posix.c']
-    exe, log = ctx.cc('h_mlog', [os.path.join(vlib.VERIF, 'harness/h_mlog.c')] + common, ['-I' + R + '/librfn'])
+    exe, log = ctx.cc('h_mlog', [os.path.join(vlib.VERIF, 'harness/h_mlog.c')] + common, ['-I' + R + '/librfn'] + ctx.FORKMAIN)
     if exe:
         return exe
     # the harness reaches into `struct mlog` (counter jump, zeroing): if that no longer compiles, use the public interface only
-    exe, log2 = ctx.cc('h_mlog', [os.path.join(vlib.VERIF, 'harness/h_mlog.c'), R + '/librfn/mlog.c'] + common, ['-DVERIF_BLACKBOX'])
+    exe, log2 = ctx.cc('h_mlog', [os.path.join(vlib.VERIF, 'harness/h_mlog.c'), R + '/librfn/mlog.c'] + common, ['-DVERIF_BLACKBOX'] + ctx.FORKMAIN)
     if not exe:
         raise vlib.Unbuildable('mlog harness does not compile against /repo: ' + log[-1500:])
     ctx.blackbox = True
